@@ -273,6 +273,9 @@ pub fn run_enc_check(ctx: &Ctx, check: &EncCheck) -> Stats {
             if h.text.len() > 16 {
                 st.class("random-history-text-longer-than-16");
             }
+            if h.text.len() >= 256 {
+                st.class("random-history-text-of-256-characters-or-more");
+            }
             match (check.verdict)(h, &mut sc, st, false) {
                 None => {
                     if st.samples.is_empty() && h.text.iter().any(|c| *c >= 0x80) && !h.cuts.is_empty() {
